@@ -116,6 +116,9 @@ class Sched:
     def spawn(self, func, args=(), name=None) -> T:
         t = T(len(self.threads), name or getattr(func, "__name__", "thread"))
         self.threads.append(t)
+        del name
+
+        box = [func, args]
 
         def body():
             self.by_ident[threading.get_ident()] = t
@@ -123,12 +126,17 @@ class Sched:
             try:
                 if self.aborting:
                     raise Abort()
-                func(*args)
+                f, a = box
+                f(*a)
             except Abort:
                 pass
             except BaseException as e:  # noqa
-                t.exc = e
+                t.exc = e.with_traceback(None)
             finally:
+                # drop every reference this thread holds (channels, replies ...) while it still has the
+                # baton: a __del__ running execnet code after the hand-off would run unscheduled
+                f = a = None
+                box[:] = [None, None]
                 t.state = "done"
                 self._handoff_from_dead()
 
@@ -245,6 +253,16 @@ class Sched:
 
     def run(self, timeout=60.0):
         """start scheduling the spawned threads; returns outcome string"""
+        import gc
+
+        gc.collect()      # garbage of earlier runs must not be finalised inside this run:
+        gc.disable()      # a __del__ running execnet code would add scheduling points at random moments
+        try:
+            return self._run(timeout)
+        finally:
+            gc.enable()
+
+    def _run(self, timeout):
         self.running = True
         nxt = self._pick("start")
         if nxt is None:
@@ -341,7 +359,9 @@ class SQueue:
             self.s.block(lambda: bool(self.items), timeout, "queue.get")
             if not self.items:
                 raise _queue.Empty
-        return self.items.pop(0)
+        x = self.items.pop(0)
+        self.s.yield_point("got")   # a consumer can be preempted between taking an item and acting on it
+        return x
 
     def qsize(self):
         return len(self.items)
